@@ -78,11 +78,11 @@ type BrokerV0 struct {
 }
 
 type PartitionsV0 struct {
-	ErrorCode      int16 `json:"errorCode"`
-	PartitionIndex int32 `json:"partitionIndex"`
-	LeaderId       int32 `json:"leaderId"`
-	ReplicaNodes   int32 `json:"replicaNodes"`
-	IsrNodes       int32 `json:"isrNodes"`
+	ErrorCode      int16   `json:"errorCode"`
+	PartitionIndex int32   `json:"partitionIndex"`
+	LeaderId       int32   `json:"leaderId"`
+	ReplicaNodes   []int32 `json:"replicaNodes"`
+	IsrNodes       []int32 `json:"isrNodes"`
 }
 
 type TopicV0 struct {
@@ -140,12 +140,12 @@ type MetadataResponseV3 struct {
 // Metadata Response (Version: 5)
 
 type PartitionsV5 struct {
-	ErrorCode       int16 `json:"errorCode"`
-	PartitionIndex  int32 `json:"partitionIndex"`
-	LeaderId        int32 `json:"leaderId"`
-	ReplicaNodes    int32 `json:"replicaNodes"`
-	IsrNodes        int32 `json:"isrNodes"`
-	OfflineReplicas int32 `json:"offlineReplicas"`
+	ErrorCode       int16   `json:"errorCode"`
+	PartitionIndex  int32   `json:"partitionIndex"`
+	LeaderId        int32   `json:"leaderId"`
+	ReplicaNodes    []int32 `json:"replicaNodes"`
+	IsrNodes        []int32 `json:"isrNodes"`
+	OfflineReplicas []int32 `json:"offlineReplicas"`
 }
 
 type TopicV5 struct {
@@ -166,13 +166,13 @@ type MetadataResponseV5 struct {
 // Metadata Response (Version: 7)
 
 type PartitionsV7 struct {
-	ErrorCode       int16 `json:"errorCode"`
-	PartitionIndex  int32 `json:"partitionIndex"`
-	LeaderId        int32 `json:"leaderId"`
-	LeaderEpoch     int32 `json:"leaderEpoch"`
-	ReplicaNodes    int32 `json:"replicaNodes"`
-	IsrNodes        int32 `json:"isrNodes"`
-	OfflineReplicas int32 `json:"offlineReplicas"`
+	ErrorCode       int16   `json:"errorCode"`
+	PartitionIndex  int32   `json:"partitionIndex"`
+	LeaderId        int32   `json:"leaderId"`
+	LeaderEpoch     int32   `json:"leaderEpoch"`
+	ReplicaNodes    []int32 `json:"replicaNodes"`
+	IsrNodes        []int32 `json:"isrNodes"`
+	OfflineReplicas []int32 `json:"offlineReplicas"`
 }
 
 type TopicV7 struct {
